@@ -1624,4 +1624,36 @@ theorem checkImage_sound {img : ByteArray} {pageSize : Nat} {specs : List TableS
     exact ⟨s, s', a1, checkSystemTable_sound a2, a3⟩
 
 
+open Redb.Key Redb.Spec Redb.BTree
+
+/-! ## consequences packaged for the headline theorems -/
+
+/-- the root-level reading of `ChecksumsMatch`: the stored checksum is the hash of the covered prefix -/
+theorem checksumsMatch_covered {img : ByteArray} {lay : Layout} {kw vw : Option Nat}
+    {p : PageNumber} {ck : Bytes} {t : PTree} (h : ChecksumsMatch img lay kw vw p ck t) :
+    ∃ bytes, coveredPrefix img lay kw vw p = some bytes ∧
+      ck = Redb.Xxh3.checksum bytes.toByteArray := by
+  cases h with
+  | leaf hp hb hl hck => exact ⟨_, by simp [coveredPrefix, hp, hb, hl], hck⟩
+  | branch hp hb hbr hck _ => exact ⟨_, by simp [coveredPrefix, hp, hb, hbr], hck⟩
+
+/-- everything `BTree.wf` buys, for the tree under a checked root -/
+theorem wf_consequences (kt : KT) (d : Nat) (tr : Tree) (h : wf kt none none d tr = true) :
+    Sorted kt (flatten tr) ∧ KeysValid kt (flatten tr) ∧ depthIs d tr ∧
+    ∀ k, valid kt k = true → lookup kt tr k = Spec.get kt (flatten tr) k := by
+  obtain ⟨s1, s2⟩ := flatten_sorted_nobounds kt (cmp_laws kt) none none d tr h
+  exact ⟨s1, s2, wf_depthIs d none none tr h,
+    fun k hk => lookup_of_wf kt (cmp_laws kt) none none d tr h k hk⟩
+
+theorem RootChecked.pages_mem {img : ByteArray} {lay : Layout} {kt : KT} {kw vw : Option Nat}
+    {root : Option BtreeHeader} {seen : List PageNumber} {pt : PTree} {pages : List PageNumber}
+    (h : RootChecked img lay kt kw vw root seen (some pt) pages) : ∀ x ∈ pt.pages, x ∈ pages := by
+  cases root with
+  | none => obtain ⟨h1, _⟩ := h; cases h1
+  | some hd =>
+    obtain ⟨pt', h1, _, hf⟩ := h
+    cases h1
+    exact hf.mem
+
+
 end Redb.Format
